@@ -154,9 +154,59 @@ class TypeGen:
             b = ["AnyOf", [["Tuple", [p, a[1][1]], None] for p in parts]]
         return a, b, "split-union"
 
+    def tail_escape_pair(self, names):
+        """a list type whose only values outside the right-hand union escape one member through a *later* rest element:
+        [p, ...(l1|l2)[]]  vs  [p', ...l1[]] | [p, l2, ...any[]]   (separating value: [p, l1, l2])"""
+        r = self.r
+        base = [["String"], ["Number"], ["Boolean"], ["Null"]]
+        l1, l2 = r.sample(base, 2)
+        npre = r.randrange(0, 3)
+        pre = [r.choice(base) for _ in range(npre)]
+        rest = ["AnyOf", [l1, l2]]
+        a = ["Tuple", pre, rest] if (pre or r.random() < 0.5) else ["Array", rest]
+        wide = [(["AnyOf", [p, r.choice([x for x in base if x != p])]] if r.random() < 0.6 else p) for p in pre]
+        n1 = ["Tuple", wide, l1] if (wide or r.random() < 0.5) else ["Array", l1]
+        n2 = ["Tuple", pre + [l2] + ([r.choice(base)] if r.random() < 0.3 else []), r.choice([["Any"], rest])]
+        members = [n1, n2] + ([["Tuple", pre + [self.leaf()], None]] if r.random() < 0.3 else [])
+        return a, ["AnyOf", members], "tail-escape"
+
+    def length_gap_pair(self, names):
+        """a list type against a union of list types that covers some lengths and leaves a gap (or not):
+        [p.., ...T[]]  vs  [p..] | [p.., T, T, ...T[]]   (separating value: [p.., t], unless the gap is filled)"""
+        r = self.r
+        t = r.choice([["String"], ["Number"], ["Boolean"], self.leaf()])
+        pre = [self.leaf() for _ in range(r.randrange(0, 3))]
+        a = ["Tuple", pre, t] if (pre or r.random() < 0.5) else ["Array", t]
+        lens = sorted(r.sample(range(0, 5), r.randrange(1, 4)))          # exact lengths covered by closed tuples
+        tail_from = r.randrange(1, 5)                                      # ... and every length from here on
+        members = [["Tuple", pre + [t] * k, None] for k in lens] + [["Tuple", pre + [t] * tail_from, t]]
+        return a, ["AnyOf", members], "length-gap"
+
+    def list_intersection_pair(self, names):
+        """an intersection of two list types of different shapes (closed tuple / tuple with rest / array), wrapped in unions with
+        distinct basic members so that either list type can be the one converted first, against one of the operands or the
+        expected meet"""
+        r = self.r
+        base = [["String"], ["Number"], ["Boolean"]]
+        common = r.choice(base)
+        def lst():
+            t = common if r.random() < 0.8 else r.choice(base)
+            k = r.random()
+            if k < 0.3: return ["Array", t]
+            pre = [t if r.random() < 0.8 else r.choice(base) for _ in range(r.randrange(1, 3))]
+            return ["Tuple", pre, t if k < 0.65 else None]
+        x, y = lst(), lst()
+        w1, w2 = (["Null"], ["Boolean"]) if r.random() < 0.5 else (["Boolean"], ["Null"])
+        a = ["AllOf", [["AnyOf", [w1, x]], ["AnyOf", [w2, y]]]]
+        b = r.choice([x, y, ["Never"], ["AnyOf", [x, ["Null"]]]])
+        return (a, b, "list-intersection") if r.random() < 0.7 else (b, a, "list-intersection")
+
     def pair(self, names):
         r = self.r
         if r.random() < 0.12: return self.split_pair(names)
+        if r.random() < 0.05: return self.list_intersection_pair(names)
+        if r.random() < 0.06: return self.tail_escape_pair(names)
+        if r.random() < 0.06: return self.length_gap_pair(names)
         a = self.ty(3, names)
         q = r.random()
         if q < 0.3: return a, self.ty(3, names), "random"
